@@ -192,7 +192,7 @@ class PopBuilder:
         r = s.resolve(tr)
         k = r[0]
         if k == "simple":
-            return self.simple_value(r[1])
+            return self.simple_value(r[1], depth + (1 if in_select else 0))
         if k == "enum":
             return ["e", draw(st.sampled_from(r[2])).upper()]
         if k == "entity":
@@ -219,7 +219,7 @@ class PopBuilder:
             raise Unsat("no realisable select member of " + r[1])
         raise AssertionError(k)
 
-    def simple_value(self, kind):
+    def simple_value(self, kind, depth=0):
         draw = self.draw
         if kind == "INTEGER":
             return ["i", _clamp_int(draw(ints()))]
@@ -227,7 +227,11 @@ class PopBuilder:
             return ["r", draw(real_texts(self.cfg.get("real_digits", 15)))]
         if kind == "NUMBER":
             if draw(st.booleans()):
-                return ["n", str(draw(st.integers(-10**6, 10**6)))]
+                v = str(draw(st.integers(-10**6, 10**6)))
+                if depth > 0 and not self.cfg.get("allow_number_int_in_agg", False):
+                    self.excl("integer-form NUMBER token inside an aggregate or typed select value (known finding F24)")
+                    return ["n", v + "."]
+                return ["n", v]
             return ["n", draw(real_texts(self.cfg.get("real_digits", 15)))]
         if kind == "STRING":
             return ["s", draw(string_texts(self.cfg.get("max_str", 12)))]
@@ -378,11 +382,51 @@ def _refs_ok(inst, live):
 
 
 @st.composite
-def populations(draw, schema_dict, cfg=None):
+def populations(draw, schema_dict, cfg=None, probe_cfg=None):
+    """probe_cfg: optional overrides used for ~5% of the cases ("probes": shapes of open findings are allowed)."""
     cfg = dict(cfg or {})
+    if probe_cfg and draw(st.integers(0, 19)) == 19:   # 19, not 0: shrinking moves away from probes
+        cfg.update(probe_cfg)
+        cfg["_probe"] = True
     b = PopBuilder(draw, schema_dict, cfg)
     pop = b.build()
     pop["excluded"] = b.excluded
+    if cfg.get("_probe"):
+        pop["probe"] = True
+    return pop
+
+
+def number_int_in_agg(pop):
+    """Does the population contain an integer-form NUMBER token inside an aggregate? (shape of finding F24)"""
+    def rec(v, depth):
+        t = v[0]
+        if t == "n":
+            return depth > 0 and "." not in v[1]
+        if t == "agg":
+            return any(rec(x, depth + 1) for x in v[1])
+        if t == "typed":
+            return rec(v[2], depth + 1)
+        return False
+    return any(rec(v, 0) for i in pop["instances"] for p in i["parts"] for v in p["vals"])
+
+
+def without_number_int_in_agg(pop):
+    import copy
+    pop = copy.deepcopy(pop)
+
+    def rec(v, depth):
+        t = v[0]
+        if t == "n" and depth > 0 and "." not in v[1]:
+            v[1] = v[1] + "."
+        elif t == "agg":
+            for x in v[1]:
+                rec(x, depth + 1)
+        elif t == "typed":
+            rec(v[2], depth + 1)
+    for i in pop["instances"]:
+        for p in i["parts"]:
+            for v in p["vals"]:
+                rec(v, 0)
     return pop
 
 
